@@ -25,3 +25,4 @@ def run(chk):
     context_contracts.wait_validation(chk, "C03")
     from . import wrapper_contracts
     wrapper_contracts.wrapper_obligations(chk, "C03", want=("C03",))
+    wrapper_contracts.control_signals_not_exceptions(chk, "C03")   # a failed checkpoint reaches user code as a non-Exception signal: `except Exception` around a durable call cannot swallow it and run on
